@@ -483,10 +483,24 @@ func (b *builder) search(fs *ast.ForStmt, st *state) ([]*state, bool) {
 	if pi, ok := post.X.(*ast.Ident); !ok || b.info.Uses[pi] != iobj {
 		return nil, false
 	}
-	if len(fs.Body.List) != 1 {
+	if len(fs.Body.List) == 0 {
 		return nil, false
 	}
-	is, ok := fs.Body.List[0].(*ast.IfStmt)
+	// locals of the iteration (x := e, or a, b := e1, e2) may precede the test
+	var locals []*ast.AssignStmt
+	for _, s := range fs.Body.List[:len(fs.Body.List)-1] {
+		d, ok := s.(*ast.AssignStmt)
+		if !ok || d.Tok != token.DEFINE || len(d.Lhs) != len(d.Rhs) {
+			return nil, false
+		}
+		for _, l := range d.Lhs {
+			if _, isID := l.(*ast.Ident); !isID {
+				return nil, false
+			}
+		}
+		locals = append(locals, d)
+	}
+	is, ok := fs.Body.List[len(fs.Body.List)-1].(*ast.IfStmt)
 	if !ok || is.Init != nil || is.Else != nil || len(is.Body.List) != 1 {
 		return nil, false
 	}
@@ -511,6 +525,17 @@ func (b *builder) search(fs *ast.ForStmt, st *state) ([]*state, bool) {
 	inner := st.clone()
 	inner.env[iobj] = bound
 	nEff := len(inner.effects)
+	for _, d := range locals {
+		vals := make([]sym.Expr, len(d.Rhs))
+		for i, r := range d.Rhs {
+			vals[i] = b.expr(r, inner)
+		}
+		for i, l := range d.Lhs {
+			if obj := b.info.Defs[l.(*ast.Ident)]; obj != nil {
+				inner.env[obj] = vals[i]
+			}
+		}
+	}
 	p := b.expr(is.Cond, inner)
 	_ = nEff
 	b.sumDepth--
